@@ -58,16 +58,17 @@ def _gen_input(rng):
         return {"kind": "ragged", "rows": rows}
     if k == "matrix":
         r, c = rng.randint(1, 3), rng.randint(1, 4)
-        return {"kind": "matrix", "rows": [[rng.choice([1, 2, 2, 3]) for _ in range(c)] for _ in range(r)]}
+        # (cell class 0 is the value 0 -- a cell equal to the padding the encoder compares the first column with)
+        return {"kind": "matrix", "rows": [[rng.choice([0, 1, 2, 2, 3]) for _ in range(c)] for _ in range(r)]}
     if k == "ragged":
         r = rng.randint(1, 4)
         rows = []
         for _ in range(r):
             l = rng.randint(1, 5)
-            row, v = [], rng.choice([1, 2])
+            row, v = [], rng.choice([0, 1, 2])
             for _ in range(l):
                 if rng.random() < 0.4:
-                    v = rng.choice([1, 2, 3])
+                    v = rng.choice([0, 1, 2, 3])
                 row.append(v)
             rows.append(row)
         return {"kind": "ragged", "rows": rows}
@@ -215,6 +216,12 @@ def _build(p):
     return RunLengthRaggedArray.from_ragged_array(ra)
 
 
+def _if(p, i, salt=0):
+    """an integer index as a Python int or as a numpy integer scalar (chosen from the case, deterministically)"""
+    forms = gens.INT_FORMS
+    return gens.int_form(i, forms[(len(str(p.get("inp"))) + abs(i) + salt) % len(forms)])
+
+
 def _norm(x):
     from npstructures import RaggedArray, RunLengthArray
     if hasattr(x, "to_array") and not isinstance(x, np.ndarray):
@@ -272,13 +279,13 @@ def run_impl(p):
                 sh = rl.shape
                 return {"k": "val", "v": [len(rl), _norm(sh[0]), _norm(np.asarray(sh[1]).tolist()) if p["cls"] == "ragged" else _n(sh[1]), _n(rl.size)]}
             if f == "row_int":
-                return {"k": "val", "v": _norm(rl[p["i"]])}
+                return {"k": "val", "v": _norm(rl[_if(p, p["i"])])}
             if f == "rows":
                 rs = ragidx.py_rowsel(p["sel"], p.get("variant", 1)) if p["sel"]["t"] != "all" else slice(None)
                 ell = p.get("ell")      # the same selection spelled with an Ellipsis / as a 1-tuple
                 return {"k": "val", "v": _norm(rl[(rs, Ellipsis)] if ell == "right" else rl[(rs,)] if ell == "tuple" else rl[rs])}
             if f == "element":
-                return {"k": "val", "v": _norm(rl[p["i"], p["j"]])}
+                return {"k": "val", "v": _norm(rl[_if(p, p["i"]), _if(p, p["j"], 1)])}
             if f == "col_int":
                 j = p["j"] if p.get("jform", "int") == "int" else np.dtype(p["jform"]).type(p["j"])
                 if p["rsel"]["t"] == "all" and p.get("ell") == "left":
